@@ -32,6 +32,8 @@ def run(ctx, tier):
     ctx.rule("A3", "(shared with C19.I2) the protocol setter's state-override block: three refusals, then default-port elision, in all four copies")
     ctx.rule("A4", "each setter normalises its argument as the Standard's API setter does (tab/newline removal; one leading "
                    "'?' / '#' stripped by the search / hash setters and by no other)")
+    ctx.rule("A7", "(protocol setter) no refusal of the scheme parsers tests the raw input's scheme type where that is already known to be "
+                   "NOT_SPECIAL (the slow arm judges the lower-cased buffer)")
     ctx.rule("A6", "the pathname setter with the empty value leaves \"/\" on a non-special URL only when the host is null (not when "
                    "it is merely empty)")
     ctx.rule("A5", "the host setter hands the text behind ':' to set_port only when it is not empty (an empty port text leaves the "
@@ -49,6 +51,7 @@ def run(ctx, tier):
         HS.check_setter_steps(ctx, fxs[name], "A4")
         HS.check_host_setter_port(ctx, fxs[name], "A5")
         HS.check_setter_empty_path(ctx, fxs[name], "A6")
+        HS.check_dead_scheme_tests(ctx, fxs[name], "A7")
 
 
 def check(ctx, fx):
